@@ -237,6 +237,64 @@ def _move_outcome_real(dir_a, dir_b, size, dst_exists):
         shutil.rmtree(b, ignore_errors=True)
 
 
+class _KillAt(object):
+    """Runs the single process and kills it at the n-th call of the given kind (optionally in the
+    middle of it, after `mid` bytes)."""
+
+    def __init__(self, call, nth, mid=None):
+        self.call, self.nth, self.mid, self.seen = call, nth, mid, 0
+
+    def decide(self, world, runnable):
+        from .simfs import Directive
+        p = runnable[0]
+        if p.pending[0] == self.call:
+            self.seen += 1
+            if self.seen == self.nth:
+                return p.slot, (Directive('killmid', self.mid) if self.mid else Directive('kill'))
+        return p.slot, RUN
+
+
+def kill_semantics():
+    """kill -9 as the simulator models it: completed system calls persist, user-space buffers are
+    lost, nothing is written while the killed process unwinds (`with` blocks, buffered flushes,
+    finally clauses), temp files stay behind."""
+    problems = []
+    for mid in (None, 10):
+        fs = SimFS()
+        world = World(fs, {'stdio_buffer': 64})
+        world.clock_deltas = lambda: 1000
+        base = SIM_ROOT + '/k'
+        fs.makedirs(base)
+        seam = Seam(world, '/x')
+        reached = []
+
+        def body(p):
+            try:
+                with seam.open(base + '/f', 'wb') as f:
+                    f.write(b'A' * 64)        # 1st raw write (buffer full)
+                    f.write(b'B' * 64)        # 2nd raw write: killed here
+                    f.write(b'C' * 64)
+                reached.append('after-with')
+            finally:
+                try:
+                    seam.os.unlink(base + '/f')      # cleanup code of a killed process must not run effects
+                except BaseException:
+                    reached.append('finally-blocked')
+                    raise
+        world.spawn({}, body)
+        world.run_until_quiescent(_KillAt('write', 2, mid), step_cap=1000)
+        node = fs.lookup(base + '/f')
+        want = 64 + (mid or 0)
+        if world.procs[0].outcome != ('killed',):
+            problems.append('kill semantics: outcome %r' % (world.procs[0].outcome,))
+        if node is None or len(node.data) != want:
+            problems.append('kill semantics (mid=%r): file has %r bytes, expected %d' % (
+                mid, None if node is None else len(node.data), want))
+        if 'after-with' in reached or 'finally-blocked' not in reached:
+            problems.append('kill semantics: unwinding code had effects: %r' % (reached,))
+    return problems
+
+
 # sha256 of the CPython 3.12 sources the SimShutil transcription was made from
 def shutil_fingerprint():
     src = ''.join(inspect.getsource(f) for f in (shutil.move, shutil.copy2, shutil.copyfile, shutil.copystat))
@@ -247,7 +305,7 @@ TRANSCRIBED_FROM = None     # filled in on first run; recorded in evidence
 
 
 def run(root_seed, nscripts):
-    problems = []
+    problems = kill_semantics()
     scratch = tempfile.mkdtemp(prefix='verif-conf-')
     calls = 0
     try:
@@ -290,5 +348,5 @@ def run(root_seed, nscripts):
                         problems.append('shutil.move cross-device size=%d dst_exists=%s: sim %r real %r' % (size, dst_exists, simr, realr))
     finally:
         shutil.rmtree(scratch, ignore_errors=True)
-    return {'problems': problems, 'scripts': nscripts, 'calls_compared': calls, 'shutil_moves_compared': moves,
+    return {'problems': problems, 'scripts': nscripts, 'kill_semantics_checked': True, 'calls_compared': calls, 'shutil_moves_compared': moves,
             'cross_device_move': cross, 'interpreter_shutil_fingerprint': shutil_fingerprint()}
